@@ -15,10 +15,12 @@
      9  a number inside the skipLastN region is requested
      10 missingSeqNumbers panicked (index out of range on the caller's buffer)
      11 as 7, but the 16-bit number is an alias (65536 apart) of a number NACKed earlier
-        whose counter was never pruned (counters are keyed by the 16-bit number) *)
-From IV Require Import Base.Word Model.ReceiveLog Model.NackGen Spec.NackSpec.
+        whose counter was never pruned (counters are keyed by the 16-bit number)
+     12 receiveLog.get answers differently from the recount (received and within the window) *)
+From IV Require Import Base.Word Model.ReceiveLog Model.NackGen Spec.NackSpec Spec.NackGenSpec.
 
-(* ---------- core stream: case = (size, ops, outs); op (0,seq)=add, (1,skip)=missingSeqNumbers ---------- *)
+(* ---------- core stream: case = (size, ops, outs); op (0,seq)=add, (1,skip)=missingSeqNumbers,
+   (2,seq)=get (output [1] = true, [0] = false) ---------- *)
 (* implementation outputs are printed run-length compressed: (a, n) stands for
    a, a+1, ..., a+n-1 (mod 2^16); (-1, 0) marks a panic *)
 Definition expand_runs (l : list (Z * Z)) : list Z :=
@@ -27,10 +29,14 @@ Definition expand_runs (l : list (Z * Z)) : list Z :=
 
 Definition core_case := (Z * list (Z * Z) * list (list (Z * Z)))%type.
 
+Definition b2l (b : bool) : list Z := [if b then 1 else 0].
+
 Fixpoint core_run (s : rlog) (ops : list (Z * Z)) : list (list Z) :=
   match ops with
   | [] => []
-  | (k, a) :: tl => if k =? 0 then core_run (add s a) tl else missing s a :: core_run s tl
+  | (k, a) :: tl => if k =? 0 then core_run (add s a) tl
+                    else if k =? 2 then b2l (get s a) :: core_run s tl
+                    else missing s a :: core_run s tl
   end.
 
 Definition lleqb (a b : list (list Z)) : bool := list_eqb (list_eqb Z.eqb) a b.
@@ -74,6 +80,14 @@ Definition list_code (sz skip : Z) (s : option sst) (e o : list Z) : nat :=
         end
     end.
 
+(* what the specification expects from a query op, and the code for an output o *)
+Definition op_expect (sz : Z) (s : option sst) (k a : Z) : list Z :=
+  if k =? 2 then b2l (spec_get sz s a) else spec_missing sz a s.
+
+Definition op_code (sz : Z) (s : option sst) (k a : Z) (o : list Z) : nat :=
+  if k =? 2 then (if list_eqb Z.eqb (b2l (spec_get sz s a)) o then 0%nat else 12%nat)
+  else list_code sz a s (spec_missing sz a s) o.
+
 Fixpoint core_spec_code (sz : Z) (s : option sst) (ops : list (Z * Z)) (outs : list (list Z)) : nat :=
   match ops with
   | [] => match outs with [] => 0%nat | _ => 5%nat end
@@ -83,7 +97,7 @@ Fixpoint core_spec_code (sz : Z) (s : option sst) (ops : list (Z * Z)) (outs : l
         match outs with
         | [] => 5%nat
         | o :: outs' =>
-            match list_code sz a s (spec_missing sz a s) o with
+            match op_code sz s k a o with
             | O => core_spec_code sz s tl outs'
             | n => n
             end
@@ -108,7 +122,7 @@ Fixpoint core_spec_run (sz : Z) (s : option sst) (ops : list (Z * Z)) : list (li
   | [] => []
   | (k, a) :: tl =>
       if k =? 0 then core_spec_run sz (s_add s a) tl
-      else spec_missing sz a s :: core_spec_run sz s tl
+      else op_expect sz s k a :: core_spec_run sz s tl
   end.
 
 Lemma list_code_0 sz skip s e o : list_code sz skip s e o = 0%nat <-> o = e.
@@ -124,6 +138,15 @@ Proof.
       repeat match goal with |- context [if ?c then _ else _] => destruct c end; discriminate.
 Qed.
 
+Lemma op_code_0 sz s k a o : op_code sz s k a o = 0%nat <-> o = op_expect sz s k a.
+Proof.
+  unfold op_code, op_expect. destruct (k =? 2).
+  - destruct (list_eqb Z.eqb _ o) eqn:E.
+    + apply list_eqb_Z_eq in E. split; auto.
+    + split; [discriminate|]. intros ->. rewrite (proj2 (list_eqb_Z_eq _ _) eq_refl) in E. discriminate.
+  - apply list_code_0.
+Qed.
+
 (* the oracle accepts a case exactly when every implementation output equals the spec's list *)
 Lemma core_spec_code_iff sz s ops outs :
   core_spec_code sz s ops outs = 0%nat <-> outs = core_spec_run sz s ops.
@@ -132,10 +155,10 @@ Proof.
   - destruct outs; split; intros; congruence.
   - destruct (k =? 0); [apply IH|].
     destruct outs as [|o outs']; [split; intros; congruence|].
-    destruct (list_code sz a s (spec_missing sz a s) o) eqn:E.
-    + apply list_code_0 in E. subst o. rewrite IH. split; intros H; [congruence|injection H; auto].
+    destruct (op_code sz s k a o) eqn:E.
+    + apply op_code_0 in E. subst o. rewrite IH. split; intros H; [congruence|injection H; auto].
     + split; [discriminate|]. intros H. injection H as H1 H2.
-      apply (proj2 (list_code_0 sz a s _ _)) in H1. congruence.
+      apply (proj2 (op_code_0 sz s k a _)) in H1. congruence.
 Qed.
 
 (* ---------- API stream ----------
